@@ -159,6 +159,7 @@ def analyse(prog):
         "symbols": sym,
         "comp_vars": comp_vars,
         "localnames": frozenset(n for n, s in sym.items() if s.is_local() and n not in comp_vars),
+        "attr_stores": any(form == "attr" and name == "o.at" for sid, name, form, line in sites),
     }
     _ANALYSIS[prog.src] = info
     if len(_ANALYSIS) > 2000:
